@@ -263,12 +263,17 @@ class Explorer:
         self.timeout_ms = timeout_ms
         self.max_paths = max_paths
         self.stack = []
+        for kv in (_os.environ.get("PYVC_Z3_PARAMS") or "").split(","):
+            if "=" in kv:
+                k, v = kv.split("=")
+                z3.set_param(k, int(v) if v.isdigit() else (v == "true" if v in ("true", "false") else v))
         self.solver = z3.Solver()
         self.solver.set("timeout", timeout_ms)
         for a in axioms:
             self.solver.add(a)
         self.obligations = {}     # name -> dict(kind, vcs, failed:list[Failure], time)
         self.n_paths = 0
+        self.by_backend = {}
         self.solver_time = 0.0
         self.n_checks = 0
         self.notes = []
@@ -311,6 +316,7 @@ class PathCtx:
         self.pos = 0
         self.solver = explorer.solver
         self.pc = []
+        self.model = None          # a model of the (quantifier-free) path condition, when one is known
         self.lemmas = []
         self._fresh = itertools.count()
         self.labels = []
@@ -327,6 +333,12 @@ class PathCtx:
                 self.assume(ch)
             return
         self.pc.append(cond)
+        if self.model is not None:
+            try:
+                if not z3.is_true(self.model.eval(cond, model_completion=True)):
+                    self.model = None
+            except z3.Z3Exception:
+                self.model = None
         if has_quantifier(cond):
             # quantified facts are kept out of the feasibility / model queries (z3 answers `unknown` for
             # satisfiable quantified problems); they are added whenever something has to be *proved*
@@ -334,16 +346,21 @@ class PathCtx:
             return
         self.solver.add(cond)
 
-    def _prove_unsat(self, *extra):
-        """check() of path condition + lemmas + extra (used for proof-direction queries)."""
+    def _prove_unsat(self, *extra, quick=False):
+        """check() of path condition + lemmas + extra (used for proof-direction queries).
+        quick: small time budget (refutations by instantiation are fast; satisfiable quantified queries are not)."""
         if not self.lemmas:
             return self._check(*extra)
         self.solver.push()
         try:
+            if quick:
+                self.solver.set("timeout", 400)
             for l in self.lemmas:
                 self.solver.add(l)
             return self._check(*extra)
         finally:
+            if quick:
+                self.solver.set("timeout", self.ex.timeout_ms)
             self.solver.pop()
 
     def _check(self, *assumptions):
@@ -360,7 +377,19 @@ class PathCtx:
             return True
         if z3.is_false(c):
             return False
-        return self._check(c) != z3.unsat
+        if self.model is not None:
+            try:
+                if z3.is_true(self.model.eval(c, model_completion=True)):
+                    return True        # the known model of the path condition already satisfies it
+            except z3.Z3Exception:
+                pass
+        r = self._check(c)
+        if r == z3.sat:
+            try:
+                self.model = self.solver.model()
+            except z3.Z3Exception:
+                self.model = None
+        return r != z3.unsat
 
     def choose(self, conds, label=""):
         """Pick one feasible alternative; the others are explored on later paths."""
@@ -379,7 +408,8 @@ class PathCtx:
                 feas.append(i)
         if self.lemmas and feas:
             # options refuted by the quantified lemmas are dead (only `unsat` is trusted from that query)
-            feas = [i for i in feas if self._prove_unsat(conds[i]) != z3.unsat]
+            if _os.environ.get("PYVC_PRUNE"):
+                feas = [i for i in feas if self._prove_unsat(conds[i], quick=True) != z3.unsat]
         if not feas:
             self.trace.append([0, []])
             raise PathAbort("infeasible at choose(%s)" % label)
@@ -415,7 +445,8 @@ class PathCtx:
             return True
         if z3.is_false(c):
             return False
-        return self.memo(lambda: self._prove_unsat(z3.Not(c)) == z3.unsat)
+        return self.memo(lambda: (self._check(z3.Not(c)) == z3.unsat) or
+                         (bool(self.lemmas) and self._prove_unsat(z3.Not(c), quick=True) == z3.unsat))
 
     def value_of(self, term):
         """Concrete python value of an Int term if the path condition determines it uniquely."""
@@ -521,8 +552,12 @@ class PathCtx:
             fail = Failure(name, kind, "violated", model_txt=_model_text(m), model=m, detail=detail,
                            pc=list(self.pc), goal=g, meta=meta)
         elif r == z3.unknown:
-            fail = Failure(name, kind, "unknown", detail="solver: %s" % self.solver.reason_unknown(),
-                           pc=list(self.pc), goal=g, meta=meta)
+            r2 = _cvc5_check(self.solver, self.ex.timeout_ms)
+            if r2 == "unsat":
+                self.ex.by_backend["cvc5"] = self.ex.by_backend.get("cvc5", 0) + 1
+            else:
+                fail = Failure(name, kind, "unknown", detail="z3: %s; cvc5: %s" % (self.solver.reason_unknown(), r2),
+                               pc=list(self.pc), goal=g, meta=meta)
         self.solver.pop()
         if fail is not None and _os.environ.get("PYVC_SPLIT"):
             self._explain(name, g)
@@ -551,6 +586,32 @@ def _conjuncts(g, pre=None):
         na = a.children()[0]
         return _conjuncts(b, na if pre is None else z3.And(pre, na))
     return [g if pre is None else z3.Implies(pre, g)]
+
+
+def _cvc5_check(solver, timeout_ms):
+    """Second back end for queries z3 leaves open: the same assertions through SMT-LIB on cvc5."""
+    import subprocess
+    import tempfile
+    try:
+        txt = solver.to_smt2()
+    except Exception as e:
+        return "export-failed: %s" % e
+    txt = "(set-logic ALL)\n" + txt
+    with tempfile.NamedTemporaryFile("w", suffix=".smt2", delete=False) as f:
+        f.write(txt)
+        path = f.name
+    try:
+        p = subprocess.run(["/usr/bin/cvc5", "--strings-exp", "--tlimit=%d" % max(timeout_ms, 1000), path],
+                           capture_output=True, text=True, timeout=timeout_ms / 1000.0 + 10)
+        out = (p.stdout.strip().splitlines() or ["?"])[0]
+        return out if out in ("sat", "unsat", "unknown") else "error: %s" % (p.stdout + p.stderr)[:200]
+    except Exception as e:
+        return "error: %s" % e
+    finally:
+        try:
+            _os.remove(path)
+        except OSError:
+            pass
 
 
 def has_quantifier(e):
